@@ -324,12 +324,13 @@ class Harness:
 
     def inject(self, pcode: str) -> tuple[list[str], str]:
         """Returns (node definition lines for the model, op line)."""
-        before = set(self.interp._interrupts_map.keys())
+        # (public `interrupts` property: the registered interrupts in registration order)
+        before = {id(i.node) for i in self.interp.interrupts}
         prog = self.mm.parse_inject_code(pcode)
         self.interp.inject_node(prog)
-        new = [i for i in self.interp._interrupts_map.keys() if i not in before]
+        new = [i.node for i in self.interp.interrupts if id(i.node) not in before]
         assert len(new) == 1
-        inj = self.interp._interrupts_map[new[0]].node
+        inj = new[0]
         start = len(self.nodes)
         stack = [inj]
         order = []
